@@ -104,7 +104,9 @@ CHECKS['C19'] = (
     'against a list reference. 19b explores the product of a real ProgressReporter with the `armed` '
     'reference for values/maxima 0..3 (0..4) to a fixpoint, so histories of every length over that '
     'range are covered, and replays all 12 537 nodes of the TLC-enumerated history tree (N=2, depth 4; '
-    'depth 5 thorough) of tla/Progress.tla, whose invariants TLC checks. The suite has five event tests.',
+    'depth 5 thorough) of tla/Progress.tla, whose invariants TLC checks; printed completion messages are counted per operation. A third sweep drives '
+    'the module-level functions (one global emitter) through every history of length <= 4 (5) over 8 events. '
+    'The suite has five event tests.',
     'set_silent only outside silent(); resets leaving a zero maximum excluded (statement silent); value '
     'returned by emit while silenced not compared; TLC trusted for the model side.',
     'DESIGN.md section 6 C19')
@@ -118,7 +120,10 @@ CHECKS['C20'] = (
     'schedules, each checked against the clauses of the statement. TLC checks five invariants on '
     'tla/Download.tla (nondeterministic where the statement is silent); each of its terminal paths '
     'is driven against the real code and the observed (answers consumed, outcome, GET count) must be '
-    'a model path, and conversely every explored schedule must be one. Replay determinism is asserted.',
+    'a model path, and conversely every explored schedule must be one. Replay determinism is asserted (a '
+    'divergence is reported as behaviour depending on earlier calls). Further sweeps: large / empty bodies, '
+    'the download_test_file wrapper from a fresh configuration directory, target paths of 56 / 60 '
+    'characters, and 140 (300) downloads in one process without resetting the global event system.',
     'responses.RequestsMock is the trusted mock; HEAD answers constant; nothing claimed about the file '
     'after an exception.',
     'DESIGN.md section 6 C20')
@@ -150,13 +155,14 @@ CHECKS['C17'] = (
 
 CHECKS['C04'] = (
     'deviation-bounded exhaustive enumeration of dataset layouts (space mode): default + every '
-    'configuration within k deviations over 24 option axes, each generated on disk, loaded with the '
+    'configuration within k deviations over 26 option axes, each generated on disk, loaded with the '
     'real load_model and compared with the generator\'s ground truth',
     'Bounded exhaustive exploration: a dataset generator with independent ground truth writes every '
-    'configuration at Hamming distance <= 3 (4 thorough) from the default over 24 axes (KS/ALF names, '
+    'configuration at Hamming distance <= 3 (4 thorough) from the default over 26 axes (KS/ALF names, '
     '(n,)/(n,1) vectors, presence of each optional file, dense/sparse templates, id/time dtypes, raw '
     'file layout, channel map, spike attributes, NaN/inf content, non-monotonic times, sample rate): '
-    '10 512 datasets quick. Every public attribute is compared value-by-value, defaults included, the '
+    '26 755 datasets quick (+ one-channel probes, and histories that rewrite a dataset in place and load it '
+    'again in the same process). Every public attribute is compared value-by-value, defaults included, the '
     'directory is hashed before and after, and a reload after derived files were created is compared '
     'too. A failure is attributed to the smallest sub-configuration showing it.',
     '>= 2 spikes/templates/channels per dataset; memory-mapped arrays exempt at NaN positions; values '
@@ -252,10 +258,12 @@ CHECKS['C12'] = (
 CHECKS['C13'] = (
     'deviation-bounded exhaustive enumeration of source datasets x label x unit factor (space mode): '
     'each generated on disk, converted by the real EphysAlfCreator, the output listed and loaded back',
-    'Bounded exhaustive exploration: every configuration within 5 deviations (the full product of 6 144 '
-    'in the thorough tier) of the default over 11 axes (raw data, feature store kind, curation kind '
-    'incl. the no-emptied-id case, probe table, KSLabel, temp_wh.dat, (n,1) vectors, unused top '
-    'template, whitening, label, unit factor). Checked: first dimension of every spikes./clusters./'
+    'Bounded exhaustive exploration: every configuration within 3 deviations (2 687 conversions; 6 '
+    'deviations = 199 321 in the thorough tier) of the default over 19 axes (raw data and its format incl. a '
+    'compressed recording of several decompression batches, feature store kind, curation kind incl. the '
+    'no-emptied-id case, probe table, KSLabel, temp_wh.dat, (n,1) vectors, unused top template, whitening, '
+    'channel map, second conversion by one creator, > 12 channels, label, unit factor, linked source files, '
+    'odd window length, mm geometry + fractional rate, a spike after the end of the recording). Checked: first dimension of every spikes./clusters./'
     'templates./channels. file, label placement, times and samples, uuid uniqueness and count, the '
     'returned model and a fresh load of the output against the source, refusal to convert into the '
     'source directory, and SHA-1 of every source file before/after.',
